@@ -8,8 +8,15 @@ Definition s_is_if (f : fname) : bool :=
   | FFindIf | FPositionIf | FCountIf | FRemoveIf | FDeleteIf | FSubstituteIf | FNsubstituteIf => true
   | _ => false
   end.
+Definition s_is_if_not (f : fname) : bool :=
+  match f with
+  | FFindIfNot | FPositionIfNot | FCountIfNot | FRemoveIfNot | FDeleteIfNot | FSubstituteIfNot | FNsubstituteIfNot => true
+  | _ => false
+  end.
 Definition s_match (c : call) : Z -> bool :=
-  if s_is_if (c_fn c) then if_match (c_pred c) (c_key c) else item_match (c_test c) (c_item c) (c_key c).
+  if s_is_if (c_fn c) then if_match (c_pred c) (c_key c)
+  else if s_is_if_not (c_fn c) then (fun x => negb (if_match (c_pred c) (c_key c) x))
+  else item_match (c_test c) (c_item c) (c_key c).
 
 Definition s_start (c : call) : nat := match c_start c with Some n => n | None => 0%nat end.
 Definition s_end (c : call) (l : list Z) : nat := match c_end c with Some n => n | None => length l end.
@@ -223,12 +230,12 @@ Definition s_call (c : call) : option res :=
   let around (w' : list Z) := RSeq (firstn st l ++ w' ++ skipn en l) in
   let p := s_match c in
   match c_fn c with
-  | FFind | FFindIf => Some (opt_elt (s_find p (c_from_end c) w))
-  | FPosition | FPositionIf => Some (opt_int (s_position p (c_from_end c) st w))
-  | FCount | FCountIf => Some (RInt (Z.of_nat (s_count p w)))
-  | FRemove | FRemoveIf | FDelete | FDeleteIf =>
+  | FFind | FFindIf | FFindIfNot => Some (opt_elt (s_find p (c_from_end c) w))
+  | FPosition | FPositionIf | FPositionIfNot => Some (opt_int (s_position p (c_from_end c) st w))
+  | FCount | FCountIf | FCountIfNot => Some (RInt (Z.of_nat (s_count p w)))
+  | FRemove | FRemoveIf | FDelete | FDeleteIf | FRemoveIfNot | FDeleteIfNot =>
       Some (around (from_end_wrap (c_from_end c) (rem_n p (s_limit (c_count c))) w))
-  | FSubstitute | FSubstituteIf | FNsubstitute | FNsubstituteIf =>
+  | FSubstitute | FSubstituteIf | FNsubstitute | FNsubstituteIf | FSubstituteIfNot | FNsubstituteIfNot =>
       Some (around (from_end_wrap (c_from_end c) (sub_n p (c_new c) (s_limit (c_count c))) w))
   | FRemoveDuplicates | FDeleteDuplicates =>
       Some (around (if c_from_end c then dedup_earlier (c_test c) (c_key c) [] w else dedup_later (c_test c) (c_key c) w))
@@ -298,12 +305,14 @@ Definition start_absent (o : option nat) : bool := match o with None => true | S
 Definition takes_no_test (f : fname) : bool :=
   match f with
   | FFindIf | FPositionIf | FCountIf | FRemoveIf | FDeleteIf | FSubstituteIf | FNsubstituteIf
-  | FMemberIf | FAssocIf | FAssocIfNot | FRassocIf => true
+  | FMemberIf | FAssocIf | FAssocIfNot | FRassocIf
+  | FFindIfNot | FPositionIfNot | FCountIfNot | FRemoveIfNot | FDeleteIfNot | FSubstituteIfNot | FNsubstituteIfNot => true
   | _ => false
   end.
 Definition takes_count (f : fname) : bool :=
   match f with
-  | FRemove | FRemoveIf | FDelete | FDeleteIf | FSubstitute | FSubstituteIf | FNsubstitute | FNsubstituteIf => true
+  | FRemove | FRemoveIf | FDelete | FDeleteIf | FSubstitute | FSubstituteIf | FNsubstitute | FNsubstituteIf
+  | FRemoveIfNot | FDeleteIfNot | FSubstituteIfNot | FNsubstituteIfNot => true
   | _ => false
   end.
 Definition keywords_ok (c : call) : bool :=
@@ -381,6 +390,8 @@ Definition in_domain (c : call) : bool :=
       (start_absent (c_start c) || (s_start c <? s_end c l1)%nat) &&              (* KF :start = end *)
       (negb (s_start c =? s_end c l1)%nat || match c_init c with Some _ => true | None => false end)   (* KF (reduce '+ '()) *)
   | FConcatenate => true
+  (* KF the -if-not functions do not exist *)
+  | FFindIfNot | FPositionIfNot | FCountIfNot | FRemoveIfNot | FDeleteIfNot | FSubstituteIfNot | FNsubstituteIfNot => false
   end.
 
 (* ---- the same call on another representation of its sequences --------------------------------------------- *)
